@@ -210,7 +210,11 @@ ModifyEnum(f) ==
   ELSE LET k == Len(f.enums) IN
        IF f.syntax = "editions" /\ f.enums[k].feat = NoFS THEN {[f EXCEPT !.enums[k].feat[ff.k] = ff.v] : ff \in EnumFeatures} ELSE {}
 
-AddDep(f) == IF f.deps = <<>> THEN {[f EXCEPT !.deps = <<DepImport>>, !.imps = <<DepMsg, DepClosed, DepOpen>>]} ELSE {}
+AddDep(f) == IF f.deps = <<>>
+             THEN {[f EXCEPT !.deps = <<DepImport>>, !.imps = <<DepMsg, DepClosed, DepOpen>>],
+                   [f EXCEPT !.deps = <<[path |-> "dep2.proto", public |-> FALSE, missing |-> FALSE], [DepImport EXCEPT !.public = TRUE]>>,
+                             !.imps = <<DepMsg, DepClosed, DepOpen>>]}
+             ELSE {}
 
 AddExtension(f) ==
   IF Len(f.exts) >= MaxExts \/ f.syntax = "proto3" THEN {}
@@ -219,11 +223,12 @@ AddExtension(f) ==
            ext(p, ee, l, t, tn) == [NewField("x" \o ToString(k), 1000 + k, l, t, tn) EXCEPT !.extendee = ee, !.parent = p]
            extendees == {"." \o MsgFullOf(f, q) : q \in {r \in 1..NM(f) : f.msgs[r].xr # <<>>}}
                         \cup (IF f.deps = <<>> THEN {} ELSE {".dep.DM"})
-       IN {[f EXCEPT !.exts = Append(@, ext(p, ee, s.l, s.t, ""))] :
+       IN {[f EXCEPT !.exts = Append(@, [ext(p, ee, s.l, s.t, "") EXCEPT !.packed = s.p, !.lazy = s.z])] :
              p \in {q \in lastp..NM(f) : q = 0 \/ Plain(f.msgs[q])}, ee \in extendees,
-             s \in {[t |-> 5, l |-> 1], [t |-> 5, l |-> 3], [t |-> 9, l |-> 1]}}
+             s \in {[t |-> 5, l |-> 1, p |-> "", z |-> FALSE], [t |-> 5, l |-> 3, p |-> "", z |-> FALSE], [t |-> 9, l |-> 1, p |-> "", z |-> TRUE]}
+                   \cup (IF f.syntax = "proto2" THEN {[t |-> 5, l |-> 3, p |-> "t", z |-> FALSE]} ELSE {})}
           \cup (IF NM(f) = 0 THEN {}
-                ELSE {[f EXCEPT !.exts = Append(@, ext(p, ee, 1, KMessage, "." \o MsgFullOf(f, 1)))] :
+                ELSE {[f EXCEPT !.exts = Append(@, [ext(p, ee, 1, KMessage, "." \o MsgFullOf(f, 1)) EXCEPT !.lazy = TRUE])] :
                         p \in {q \in lastp..NM(f) : q = 0 \/ Plain(f.msgs[q])}, ee \in extendees})
 
 AddService(f) ==
